@@ -172,8 +172,10 @@ def mutate(rng, text, corpus, max_len):
     return text[:max_len]
 
 
-def campaign(shard, nshards, tier, prop, arm, quick, thorough, wrap=None, max_len=240, stats=None):
-    """Generator of candidate cases for one shard.  `wrap(text)` turns a candidate into the check's case shape."""
+def campaign(shard, nshards, tier, prop, arm, quick, thorough, wrap=None, max_len=240, stats=None, valid_only=False):
+    """Generator of candidate cases for one shard.  `wrap(text)` turns a candidate into the check's case shape.
+    valid_only: only texts the pure-Python scanner and parser accept enter the corpus (for arms whose oracle starts from a loaded
+    value or a parsed event stream; rejected candidates are still evaluated - and counted as such - but never bred)."""
     n = (thorough if tier == "thorough" else quick)
     scale = float(os.environ.get("VERIF_SCALE", "1") or "1")
     if scale != 1:
@@ -205,7 +207,7 @@ def campaign(shard, nshards, tier, prop, arm, quick, thorough, wrap=None, max_le
             if not f <= feats:
                 feats |= f
                 new = True
-            if new and len(cand) <= max_len:
+            if new and len(cand) <= max_len and not (valid_only and any(x[0] in ("se", "sx", "pe", "px") for x in f)):
                 corpus.append(cand)
         if stats is not None:
             stats.update(corpus=len(corpus), lines=cov.lines, features=len(feats))
